@@ -1,6 +1,110 @@
-(** C17 — pinned statements. *)
-From TU Require Import Base C01_Model C17_Model C17_Proofs.
+(** C17 — pinned statements. Groups: [tg]; [tg_len] = TokenGroup::len; [weights true] = get_weights(Mean) over Q;
+    [sparse] = token_groups_to_sparse_coo_matrix ([None] = its assertions fail); an [item] is (groups, mean?). *)
+From TU Require Import Base C01_Model C01_Proofs C17_Model C17_Proofs C17_Check.
+From Coq Require Import QArith.
+Open Scope nat_scope.
+
+(** The token groups of the byte tokenizer partition the id sequence: the (nested) group lengths sum to the number
+    of ids, and there is one group per prefix token, character (cluster), special token and suffix token.
+    [clusters_ok]: the segmentation of every regular segment concatenates to it (automatic in code-point mode). *)
+Theorem groups_partition : forall tokens padto pad prefix suffix b cpg g s ign os,
+  byte_base tokens padto pad prefix suffix = Some b ->
+  clusters_ok g (split_input (b_sv b) s ign) os ->
+  exists ids, byte_tokenize b s ign = Some ids
+    /\ list_sum (map tg_len (byte_groups b cpg g s ign os)) = length ids
+    /\ length (byte_groups b cpg g s ign os)
+       = length prefix + n_chars g (split_input (b_sv b) s ign) os + length suffix.
+Proof. exact groups_partition_l. Qed.
+Print Assumptions groups_partition.
 
 Theorem weights_len : forall mean g, length (weights mean g) = tg_len g.
 Proof. exact weights_length. Qed.
 Print Assumptions weights_len.
+
+(** If the group lengths of every item sum to its declared length, the builder does not fail; there is exactly one
+    entry per token (row 0 = item index, row 2 = position in the item, row 1 = index of the group containing it),
+    [sum lengths] entries in every row and in the values, every index inside the declared size. *)
+Theorem sparse_ok : forall items lengths, Equations items lengths ->
+  exists s, sparse items lengths = Some s
+    /\ s_r0 s = spec_r0 0 lengths /\ s_r1 s = spec_r1 items /\ s_r2 s = spec_r2 lengths
+    /\ length (s_r0 s) = list_sum lengths /\ length (s_r1 s) = list_sum lengths
+    /\ length (s_r2 s) = list_sum lengths /\ length (s_vals s) = list_sum lengths
+    /\ s_size s = [length items; list_max0 (s_gl s); list_max0 lengths]
+    /\ s_gl s = map (fun it : item => length (fst it)) items
+    /\ Forall (fun x => x < nth 0 (s_size s) 0) (s_r0 s)
+    /\ Forall (fun x => x < nth 1 (s_size s) 0) (s_r1 s)
+    /\ Forall (fun x => x < nth 2 (s_size s) 0) (s_r2 s).
+Proof. exact sparse_ok_l. Qed.
+Print Assumptions sparse_ok.
+
+(** ... and the values are, group by group, the mean weights / ones. *)
+Theorem sparse_values : forall items lengths, Equations items lengths ->
+  exists s, sparse items lengths = Some s
+    /\ s_vals s = flat_map (fun it : item => flat_map (fun g => if snd it then weights true g else repeat 1%Q (tg_len g)) (fst it)) items.
+Proof. intros items lengths H. exists (spec_out items lengths). split; [apply sparse_spec; exact H|reflexivity]. Qed.
+Print Assumptions sparse_values.
+
+(** The builder fails (assertion) exactly when some item's group lengths do not sum to its length. *)
+Theorem sparse_fails_iff : forall items lengths, sparse items lengths = None <-> ~ Equations items lengths.
+Proof.
+  intros items lengths. split.
+  - intros H E. rewrite (sparse_spec _ _ E) in H. discriminate.
+  - apply sparse_none.
+Qed.
+Print Assumptions sparse_fails_iff.
+
+(** Mean aggregation: the weights of a group whose nested parts all contain a token sum to one (over Q). *)
+Theorem weights_sum : forall g, positiveb g = true -> (sumQ (weights true g) == 1)%Q.
+Proof. exact weights_sum_l. Qed.
+Print Assumptions weights_sum.
+
+(** Sum aggregation: the builder leaves all values at one. *)
+Theorem weights_sum_mode : forall groups, item_vals false groups = repeat 1%Q (list_sum (map tg_len groups)).
+Proof. exact item_vals_sum. Qed.
+Print Assumptions weights_sum_mode.
+
+(** Every group the byte tokenizer produces is positive (clusters are non-empty, UTF-8 encodings are non-empty). *)
+Theorem byte_groups_positive : forall b cpg g s ign os,
+  clusters_ne g (split_input (b_sv b) s ign) os ->
+  forallb positiveb (byte_groups b cpg g s ign os) = true.
+Proof. exact byte_groups_positive_l. Qed.
+Print Assumptions byte_groups_positive.
+
+Theorem clusters_nonempty : forall segs os,
+  clusters_ne false segs os /\ (oracle_okb segs os = true -> clusters_ne true segs os).
+Proof. intros segs os. split; [apply clusters_ne_cp|apply clusters_ne_oracle]. Qed.
+Print Assumptions clusters_nonempty.
+
+(** Padding: row i = item i followed by padding only, all rows have the maximal length, reported lengths are exact. *)
+Theorem pad_spec : forall (rows : list (list Z)) (pad : Z),
+  let m := list_max0 (map (@length Z) rows) in
+  snd (pad_rows rows pad) = map (@length Z) rows /\
+  Forall2 (fun r r' => r' = r ++ repeat pad (m - length r) /\ length r' = m /\ length r <= m) rows (fst (pad_rows rows pad)).
+Proof. intros rows pad. apply pad_rows_spec. Qed.
+Print Assumptions pad_spec.
+
+(** The padding mask is true exactly on the first [l] positions of the row of an item of length [l]. *)
+Theorem mask_spec : forall lengths,
+  let m := list_max0 lengths in
+  Forall2 (fun l row => row = repeat true l ++ repeat false (m - l) /\ length row = m /\ l <= m) lengths (padding_mask lengths).
+Proof. exact padding_mask_spec. Qed.
+Print Assumptions mask_spec.
+
+Theorem equations_sound : forall items lengths, equationsb items lengths = true <-> Equations items lengths.
+Proof. exact equationsb_spec. Qed.
+Print Assumptions equations_sound.
+
+(** The executable statement evaluated on every implementation output holds of the model's own output. *)
+Theorem check_run : forall v, check_C17 v (run_C17 v) = true.
+Proof. exact check_run_l. Qed.
+Print Assumptions check_run.
+
+(** Non-vacuity: two items, nested groups, mean. *)
+Example sparse_witness :
+  let items := [([Full 1; Nested [Full 2; Full 1]; Full 3], true); ([Nested [Full 1]], true)] in
+  equationsb items [7; 1] = true
+  /\ forallb (fun it : item => forallb positiveb (fst it)) items = true
+  /\ option_map s_r1 (sparse items [7; 1]) = Some [0;1;1;1;2;2;2;0]
+  /\ option_map s_size (sparse items [7; 1]) = Some [2; 3; 7]
+  /\ sparse items [7; 2] = None.
+Proof. vm_compute. repeat split. Qed.
